@@ -553,7 +553,7 @@ def tie_profile_stream(ctx, n):
     for _ in range(n):
         if ctx.budget_s is not None and ctx.elapsed() > ctx.budget_s:
             break
-        case = tie_rich_election(rng)
+        case = core.gen_scoretie_election(rng) if rng.random() < 0.45 else tie_rich_election(rng)
         if case.btype != "app":
             case = Case(case.projects, case.budget, "app", core.gen_ballots(rng, "app", [nm for nm, _ in case.projects], 2, 7, distinct_hi=3), case.seed)
         if len(case.entries()) == len(case.ballots) and case.ballots:
